@@ -143,6 +143,11 @@ Theorem C18_payload_model_matches_traces :
 Proof. exact payload_model_matches_traces. Qed.
 Print Assumptions C18_payload_model_matches_traces.
 
+(* 10. the align_corners flag requested when reading (FlowField.read, Image.read, Grid.from_file) is the flag of the returned grid *)
+Theorem C18_align_corners_passthrough : align_corners_passthrough_ok = true.
+Proof. exact align_corners_passthrough_holds. Qed.
+Print Assumptions C18_align_corners_passthrough.
+
 (* non-vacuity: a rotated anisotropic 2-D grid with 2 channels is well-formed, its direction is orthonormal,
    the channel move really permutes, and the SimpleITK round trip returns it *)
 Definition ex_img : image QcF nat :=
